@@ -30,4 +30,8 @@ pub broadcast proof fn axiom_borrow_ref<'a, T>(m: &&'a T)
 pub assume_specification<T: core::cmp::PartialEq> [<[T]>::contains] (s: &[T], x: &T) -> (r: bool)
     ensures r == s@.contains(*x);
 
+
+pub assume_specification [i64::unsigned_abs] (x: i64) -> (r: u64)
+    ensures r as int == (if x >= 0 { x as int } else { -(x as int) });
+
 } // verus!
